@@ -130,6 +130,11 @@ def cli_cases(ctx, n):
             argv += ["--nextseq-trim", str(cb)]
         else:   # both trimmers in one run (NextSeq first, then -q): the reported figure is the sum of what both removed
             argv += ["-q", f"{cf},{cb}", "--nextseq-trim", str(ns)]
+        # --zero-cap comes *after* quality trimming in the documented order: the trimming sees the read's real (possibly negative) qualities; only the
+        # qualities that are written are capped at zero
+        zcap = rng.random() < 0.3
+        if zcap:
+            argv.append("--zero-cap")
         argv += ["-o", "{out:out.fastq}", "{in:in.fastq}"]
         inp = fastq([(n_, s, "".join(chr(x + base) for x in q)) for n_, s, q in reads])
         r = run_cli(argv, {"in.fastq": inp})
@@ -155,6 +160,8 @@ def cli_cases(ctx, n):
             else:
                 a, b = spec_qtrim(q, cf, cb)
             removed += len(s) - (b - a)
+            if zcap:
+                qs = "".join(chr(base) if ord(c) < base else c for c in qs)
             if (os_, oq) != (s[a:b], qs[a:b]):
                 ctx.failures.append(Failure("C13/cli-output", "command-line quality trimming deviates from the specification",
                                             dict(argv=argv, input=inp, read=n_), [os_, oq], [s[a:b], qs[a:b]]))
